@@ -1,6 +1,12 @@
 """C06 — combining simulation results is independent of grouping (DESIGN.md §5 C06).
 
-Tie to source: hand models `Model/C06.lean` (Result.update / merge / observers)
+Tie to source, two independent ways:
+(a) regeneration — `harness/gen/c06.py` re-emits `Generated/C06Result.lean` from
+the current AST of results.py (Result.update with its per-type functions and
+dispatch, _assert_can_merge + merge, get_result / get_result_mean /
+get_result_var) and the bridge theorems generated_*_match(es)_model prove the
+re-emitted functions equal to the hand model `Model/C06.lean`;
+(b) hand models `Model/C06.lean` (Result.update / merge / observers)
 and `Model/C06Heap.lean` (SimulationResults on an explicit heap of shared
 objects, parameter grids, combine_simulation_results), tied by an **exact**
 differential run: seeded scripts are executed on the real classes and on the
@@ -26,7 +32,8 @@ MODULE = 'PyPhysim.Properties.C06'
 DRIVER = 'drv_c06'
 
 CLAIM = {
-    'technique': 'Lean 4 proof (monoid homomorphism, merge-tree induction, heap frame + separation invariant)',
+    'technique': 'Lean 4 proof (monoid homomorphism, merge-tree induction, heap frame + separation invariant); '
+                 'Result arithmetic regenerated from the source + bridge theorems',
     'text': 'Kernel-checked theorems about an executable model of Result.update/merge/observers, '
             'SimulationResults.merge_all_results/append_all_results and combine_simulation_results (source after '
             'the fix: commits of findings/C06.json): for EVERY observation sequence, EVERY split into contiguous chunks and EVERY '
@@ -38,10 +45,30 @@ CLAIM = {
             'objects a frame theorem + separation invariant show that no object of a merged-in operand is written, '
             'for every later history of merges/updates (negative witness for the pre-fix aliasing); '
             'combine_simulation_results: union grid, row-major index, per-combination cell = accumulation of both '
-            'operands\' observations, operands untouched.  The hand model is tied to the source by an exact '
-            'differential run of seeded scripts comparing every attribute of every reachable object and the '
-            'sharing structure.',
-    'note': 'Hand model (no regeneration): a behaviour the generators do not reach is not tied; the thorough '
+            'operands\' observations, operands untouched.  The arithmetic core of Result (update with its four '
+            'per-type functions, the type dispatch, num_updates += 1 last / nothing stored before a raise; '
+            '_assert_can_merge + merge: all assertions first, list extension under accumulate_values_bool, MISC '
+            'replaces / other types add; get_result, get_result_mean, get_result_var) is RE-EMITTED from the current '
+            'AST of results.py on every run (Generated/C06Result.lean: which attribute ends up with which value, '
+            'which exception is raised on which condition in which state) and proved equal to the hand model for '
+            'every record and observation (generated_update_matches_model, generated_update_is_model, '
+            'generated_getters_match_model; generated_merge_matches_model for every pair of records in which _value '
+            'is either a number or a CHOICE array, an invariant of the constructor / update / merge: '
+            'one_value_invariant), so the theorems above are theorems about the regenerated functions.  In addition the '
+            'whole hand model is tied to the source by an exact differential run of seeded scripts comparing every '
+            'attribute of every reachable object and the sharing structure.',
+    'note': 'Regenerated (translator harness/gen/c06.py, symbolic execution of a small statement language once per '
+            'result type; private helpers, nested functions, properties inlined; anything outside the fragment = tie '
+            'broken): Result.update, _assert_can_merge, merge, get_result, get_result_mean, get_result_var. Trusted '
+            'there: the translator and its stated conventions (numbers are exact rationals; _value is a number or, '
+            'for CHOICE, an int array; a[int(x)] += 1 = numpy index normalisation + increment, IndexError outside; '
+            'int array / 0 reported as ZeroDivisionError unless the array is empty; array += array only under a '
+            'checked equal length; other is not self; the x = x.item() conversion of numpy scalars is the identity on '
+            'exact values, its presence is checked by generated_type_codes_and_conversion). Still hand-modelled and tied by '
+            'correspondence only: Result.__init__ / create / __eq__, get_confidence_interval (scipy), the '
+            'SimulationResults containers (add/append/merge_all/append_all), the heap / aliasing model, '
+            'combine_simulation_results and the parameter objects: there a behaviour the generators do not reach is '
+            'not tied; the thorough '
             'tier additionally enumerates all merge trees with <= 4 leaves over sequences of length <= 4. '
             'Robustness classes: R1 element types (observations/totals/CHOICE indexes as Python numbers, numpy '
             'int8..int64/uint8/uint16/float16/float32/float64 scalars, 0-d arrays; parameter value containers of '
@@ -2816,7 +2843,9 @@ def check(ctx):
     oracles(ctx, quick)
     if not quick:
         exhaustive_small(ctx)
-    ctx.notes.append('hand model Model/C06.lean + Model/C06Heap.lean tied by exact differential scripts; '
+    ctx.notes.append('Result.update / merge / get_result / mean / var regenerated from results.py '
+                     '(Generated/C06Result.lean) and proved equal to the hand model; hand model Model/C06.lean + '
+                     'Model/C06Heap.lean tied by exact differential scripts; '
                      'floating point outside the theorems (exact inputs; one tolerance stream rtol 1e-9)')
 
 
